@@ -333,7 +333,11 @@ def mu_reference_model(model: Model):
             pass
         else:
             new_def = subs(dep, {eta: mu + eta})
-            mu_expr = sympy.solve(old_def - new_def, mu)[0]
+            solutions = sympy.solve(old_def - new_def, mu)
+            if not solutions:
+                # NOTE: No mu exists for this statement, e.g. eta only used in a condition
+                continue
+            mu_expr = solutions[0]
             insertion_ind = offset + old_ind
             statements = (
                 statements[0:insertion_ind]
